@@ -57,6 +57,8 @@ typedef struct { vh_handle H; int live; int id; int kind; int cap; } vh_obj;
 extern void (*vh_pre_call_hook)(vh_obj *ob, int is_cleanup_of_object, int op_index);
 extern void (*vh_post_call_hook)(vh_obj *ob, int op_index);
 void ctrans_reset(ctrans *t);
+/* when set, cleanup of an object that is not live is called on a PROT_READ copy of its handle ("does nothing") */
+extern int vh_ro_inert_cleanup;
 
 /* generator flags */
 #define G_LIFECYCLE 1    /* cleanup, re-init, use after cleanup, use before init */
